@@ -1,4 +1,4 @@
-import Props.C17
+import Props.C17b
 #print axioms C17.lightness
 #print axioms C17.black_white
 #print axioms C17.maxmin
@@ -6,3 +6,4 @@ import Props.C17
 #print axioms C17.hue_range
 #print axioms C17.saturation_accurate
 #print axioms C17.l_le_max
+#print axioms C17.hue_accurate
